@@ -52,7 +52,8 @@ def cases(rng, tier):
                 dt = rng.choice(_dtypes_for(f))
                 p = {"lens": lens, "f": f, "dtype": dt, "vseed": rng.randint(0, 9999), "mode": rng.choice(["small", "small", "dup", "extreme", "dupx"])}
                 if f == "diff":
-                    p["n"] = rng.choice([1, 1, 2, 3, 4])
+                    p["n"] = rng.choice([1, 1, 2, 3, 4, 0])
+                    p["nform"] = rng.choice(["int", "int", "uint8", "int64"])       # the order as a Python int or a numpy scalar
                 out.append(p)
     return out
 
@@ -117,7 +118,8 @@ def _apply(p, obj, is_ra):
         if f == "unique_counts":
             return np.unique(obj, axis=-1, return_counts=True) if is_ra else np.unique(obj, return_counts=True, equal_nan=False)
         if f == "diff":
-            return np.diff(obj, n=p["n"], axis=-1) if is_ra else np.diff(obj, n=p["n"])
+            n = p["n"] if (not is_ra or p.get("nform", "int") == "int") else np.dtype(p["nform"]).type(p["n"])
+            return np.diff(obj, n=n, axis=-1) if is_ra else np.diff(obj, n=p["n"])
 
 
 def run_impl(p):
